@@ -171,8 +171,10 @@ PROPS = {
                    'interaction trees over any world) and every init/invoke session, the slot machine that mirrors bind.go/generate.go yields the same '
                    'results and final world as the environment-passing reference semantics, in which a parameter is by definition the most recent '
                    'upstream value of its (remapped) type; plus upd_list_last/other (most recent wins, others untouched) and best_match_sound '
-                   '(a different type only via Loose). The whole pipeline model (classification, selection, slots, machine) is tied to /repo by '
-                   'comparing full observations on generated chains.',
+                   '(a different type only via Loose). C01_no_unallocated_parameter and C01_slot_tables_well_formed hold with no hypothesis about the plan: for every chain '
+                   'Bind accepts, every parameter of every included provider has an allocated slot, that of the type its source puts out (providesReturns wiring '
+                   'invariant + select_sound + allocation theorem), and the slot tables are injective, disjoint and bounded. The whole pipeline model '
+                   '(classification, selection, slots, machine) is tied to /repo by comparing full observations on generated chains.',
         level_note=CHAIN_NOTE, design_ref='DESIGN.md section 8 (C01)',
         assumptions=['plan_wf holds on the case (checked on every bound case of the run)', 'reflect.Value.Call passes what it is given'],
     ),
@@ -183,7 +185,7 @@ PROPS = {
         level_text='Theorems exec_refines_sem / chain_refines (Coq, no axioms): the machine\'s final array represents the reference up environment '
                    '(final function\'s returns overridden by each wrapper\'s own returns; the environment of the last inner() call; all zero when the '
                    'remainder did not run); run_sem lemmas state the three clauses of the property on the reference semantics. Tied to /repo by the '
-                   'chain correspondence (values returned by inner() and by invoke carry provenance tags).',
+                   'chain correspondence (values returned by inner() and by invoke carry provenance tags). C02_no_unallocated_received_value (no hypothesis about the plan): every value an included provider from the invoke function on receives from inner() is read from an allocated up slot, that of the type its source below returns.',
         level_note=CHAIN_NOTE, design_ref='DESIGN.md section 8 (C02)',
         assumptions=['plan_wf holds on the case (checked on every bound case of the run)'],
     ),
